@@ -1066,6 +1066,186 @@ def run_multiform_stream(ck, n, variants):
                          dict(case, kind="multiform", what=what, impl=g, model=m), found_input=False)
 
 
+# ------------------------------------------------------------------------------------------ large array forms
+COLLAPSE_DTYPES = ["int8", "int8", "int8", "uint8", "int16", "uint16", "int32", "uint32", "int64", "int"]
+
+
+def make_collapse_case(params):
+    """Deterministic from params = {seed, n_rows, n_qubits, dtype, n_words}: rows drawn from a small set of words (many
+    duplicates), factors with half-integer real and imaginary parts, some rows cancelling earlier ones."""
+    import random
+    import numpy as np
+    r = random.Random(params["seed"])
+    nq, n_rows = params["n_qubits"], params["n_rows"]
+    words = [tuple(r.randrange(4) for _ in range(nq)) for _ in range(params["n_words"])]
+    rows, f2 = [], []
+    for k in range(n_rows):
+        if rows and r.random() < 0.05:
+            j = r.randrange(len(rows))
+            rows.append(rows[j])
+            f2.append((-f2[j][0], -f2[j][1]))          # cancels row j
+        else:
+            rows.append(r.choice(words))
+            f2.append((r.randint(-6, 6), r.choice([0, 0, 1, -2, 3])))
+    dt = int if params["dtype"] == "int" else getattr(np, params["dtype"])
+    arr = np.array(rows, dtype=dt).reshape(n_rows, nq)
+    factors = np.array([complex(a / 2, b / 2) for a, b in f2], dtype=complex)
+    return arr, factors, rows, f2
+
+
+def collapse_reference(rows, f2):
+    acc = {}
+    for w, (a, b) in zip(rows, f2):
+        c = acc.get(w, (0, 0))
+        acc[w] = (c[0] + a, c[1] + b)
+    return [(w, complex(a / 2, b / 2)) for w, (a, b) in sorted(acc.items()) if (a, b) != (0, 0)]
+
+
+def check_collapse_case(params):
+    """-> (problem description or None, canonical string of the implementation's result, rows, factors)"""
+    from tangelo.toolboxes.operators.multiformoperator import MultiformOperator as MF
+    arr, factors, rows, f2 = make_collapse_case(params)
+    a0, f0 = arr.copy(), factors.copy()
+    try:
+        u, f = MF.collapse(arr, factors)
+    except Exception as e:
+        return "collapse raised %r" % (e,), "Err:" + type(e).__name__, a0, f0
+    got = [(tuple(int(c) for c in row), complex(x)) for row, x in zip(u, f)]
+    want = collapse_reference(rows, f2)
+    prob = None
+    if not (np_equal(arr, a0) and np_equal(factors, f0)):
+        prob = "collapse changed its arguments"
+    elif [w for w, _ in got] != [w for w, _ in want]:
+        prob = "words returned %s..., expected (sorted, unique, zero sums dropped) %s..." % ([w for w, _ in got][:6], [w for w, _ in want][:6])
+    elif got != want:
+        k = next(i for i in range(len(want)) if got[i] != want[i])
+        nbad = sum(1 for i in range(len(want)) if got[i] != want[i])
+        prob = "%d of %d factors differ from the sum over duplicate rows, e.g. word %s: %s instead of %s" % (
+            nbad, len(want), "".join(map(str, want[k][0])), got[k][1], want[k][1])
+    return prob, show_mf([w for w, _ in got], [x for _, x in got]) if got else "{}", a0, f0
+
+
+def np_equal(a, b):
+    import numpy as np
+    return a.dtype == b.dtype and np.array_equal(a, b)
+
+
+def run_large_arrays(ck, variants):
+    """Array forms with more rows than a small integer dtype can index (r3: an index column of dtype int8 wraps at 128)."""
+    import numpy as np
+    from tangelo.toolboxes.operators import QubitOperator as TQ
+    from tangelo.toolboxes.operators.multiformoperator import MultiformOperator as MF
+    rng = ck.rng
+    quick = ck.tier == "quick"
+    ck.stream("collapse-large", "MultiformOperator.collapse on 120-320 rows (sizes around 127/128/129, 255/256/257 included) drawn from 5-60 "
+              "words on 2-4 qubits with many duplicates and cancelling rows, dtypes int8 uint8 int16 uint16 int32 uint32 int64 int (all "
+              "the code accepts), vs the exact sum over duplicate rows, vs mf_collapse of the Coq model, arguments unchanged; sums of two "
+              "MultiformOperators through .integer/.factors (int8) with 130-300 rows in total vs qubitoperator + qubitoperator; products with "
+              "144-289 rows vs the symbolic product and mf_mul; 33000 rows int16 (quick) and 66000 rows uint16 (thorough) vs the exact sum; "
+              "non-trivial = more than 128 rows")
+    exprs, impl, meta = [], [], []
+    sizes = [127, 128, 129, 130, 255, 256, 257, 300]
+    n_direct = 16 if quick else 160
+    for k in range(n_direct):
+        n_rows = sizes[k % len(sizes)] if k < 2 * len(sizes) else rng.randint(120, 320)
+        params = {"seed": rng.randrange(10 ** 9), "n_rows": n_rows, "n_qubits": rng.randint(2, 4),
+                  "dtype": "int8" if k < len(sizes) else rng.choice(COLLAPSE_DTYPES), "n_words": rng.choice([5, 12, 30, 60])}
+        prob, got, a0, f0 = check_collapse_case(params)
+        case = dict(params, kind="collapse")
+        if prob:
+            ck.violation("C16/MultiformOperator.collapse/differs-from-sum-over-duplicate-rows",
+                         "collapse on %d rows of dtype %s (%d qubits): %s" % (n_rows, params["dtype"], params["n_qubits"], prob), case)
+        exprs.append("mfcol %s" % coq_mf(a0, f0))
+        impl.append(got)
+        meta.append(("collapse", case))
+        ck.case("collapse-large", json.dumps(params), nontrivial=n_rows > 128, sample=dict(case, result=got[:200]),
+                tags=["dtype=" + params["dtype"], "rows>128" if n_rows > 128 else "rows<=128"])
+    # ---- very long arrays: implementation-only oracle
+    for params in ([{"seed": 1, "n_rows": 33000, "n_qubits": 3, "dtype": "int16", "n_words": 40}] +
+                   ([] if quick else [{"seed": 2, "n_rows": 66000, "n_qubits": 3, "dtype": "uint16", "n_words": 50},
+                                      {"seed": 3, "n_rows": 40000, "n_qubits": 4, "dtype": "int8", "n_words": 200}])):
+        prob, got, _, _ = check_collapse_case(params)
+        if prob:
+            ck.violation("C16/MultiformOperator.collapse/differs-from-sum-over-duplicate-rows",
+                         "collapse on %d rows of dtype %s: %s" % (params["n_rows"], params["dtype"], prob), dict(params, kind="collapse"))
+        ck.case("collapse-large", json.dumps(params), nontrivial=True, sample=dict(params, result=got[:120]),
+                tags=["dtype=" + params["dtype"], "rows>32767"])
+    # ---- sum of two operators in array form: collapse(vstack(integer), concatenate(factors)) vs the symbolic sum
+    for k in range(6 if quick else 60):
+        nq = rng.choice([4, 4, 5])
+        na, nb = rng.randint(60, 150), rng.randint(70, 150)
+        pool = all_words(nq)
+        ta = {w: make_scalar(rand_scalar(rng, allow_zero=False)[:4] + ["complex"]) for w in rng.sample(pool, na)}
+        tb = {w: make_scalar(rand_scalar(rng, allow_zero=False)[:4] + ["complex"]) for w in rng.sample(pool, nb)}
+        for w in rng.sample(list(ta), 5):
+            tb[w] = -ta[w]                                 # cancelling words
+        A, B = MF.from_qubitop(mk_qop(TQ, ta), nq), MF.from_qubitop(mk_qop(TQ, tb), nq)
+        case = {"kind": "array-sum", "n_qubits": nq, "A_terms": [[[list(f) for f in w], [complex(v).real, complex(v).imag]] for w, v in ta.items()],
+                "B_terms": [[[list(f) for f in w], [complex(v).real, complex(v).imag]] for w, v in tb.items()]}
+        prob = array_sum_problem(A, B)
+        if prob:
+            ck.violation("C16/MultiformOperator.collapse/array-sum-differs-from-symbolic-sum",
+                         "sum of two MultiformOperators (%d + %d words, %d qubits, dtype %s) through collapse: %s" % (
+                             len(A.factors), len(B.factors), nq, A.integer.dtype, prob), case)
+        ck.case("collapse-large", json.dumps([nq, sorted(map(str, ta))[:3], len(ta), len(tb), k]), nontrivial=True,
+                sample={"n_qubits": nq, "rows": len(A.factors) + len(B.factors)}, tags=["array-sum", "dtype=" + str(A.integer.dtype)])
+    # ---- products with more than 128 rows
+    for k in range(3 if quick else 30):
+        nq = 4
+        pool = all_words(nq)
+        ta = {w: make_scalar(rand_scalar(rng, allow_zero=False)[:4] + ["complex"]) for w in rng.sample(pool, rng.randint(12, 17))}
+        tb = {w: make_scalar(rand_scalar(rng, allow_zero=False)[:4] + ["complex"]) for w in rng.sample(pool, rng.randint(12, 17))}
+        A, B = MF.from_qubitop(mk_qop(TQ, ta), nq), MF.from_qubitop(mk_qop(TQ, tb), nq)
+        case = {"kind": "multiform", "n_qubits": nq, "a": "%d words" % len(ta), "b": "%d words" % len(tb),
+                "A_terms": [[[list(f) for f in w], [complex(v).real, complex(v).imag]] for w, v in ta.items()],
+                "B_terms": [[[list(f) for f in w], [complex(v).real, complex(v).imag]] for w, v in tb.items()]}
+        try:
+            with np_product_shim(variants["np_product_missing"]):
+                P = A * B
+            got = show_mf(P.integer, P.factors)
+            sym = mk_qop(TQ, ta) * mk_qop(TQ, tb)
+            if canon_qterms(P.terms) != canon_qterms(sym.terms):
+                ck.violation("C16/MultiformOperator.__mul__/differs-from-symbolic-product",
+                             "array product of %d x %d words differs from the symbolic product" % (len(ta), len(tb)), case)
+        except Exception as e:
+            got = "Err:" + type(e).__name__
+            ck.violation("C16/MultiformOperator.__mul__/exception/%s" % type(e).__name__, "A*B raised %r" % e, case)
+        exprs.append("mfmul %s %s" % (coq_mf(A.integer, A.factors), coq_mf(B.integer, B.factors)))
+        impl.append(got)
+        meta.append(("mul", case))
+        ck.case("collapse-large", json.dumps([k, len(ta), len(tb), sorted(map(str, ta))[:2]]), nontrivial=True,
+                sample={"rows": len(ta) * len(tb)}, tags=["product-rows>128"])
+    model = ck.coq_eval("large", PREAMBLE, exprs, shard=8)
+    for m, g, (what, case) in zip(model, impl, meta):
+        if m != g and not g.startswith("Err"):
+            ck.violation("C16/correspondence/multiform/%s-large" % what,
+                         "%s on a large array: implementation and model differ (impl %s... model %s...)" % (what, g[:150], m[:150]),
+                         dict(case, what=what), found_input=False)
+
+
+def array_sum_problem(A, B):
+    """collapse(vstack(A.integer, B.integer), concatenate(A.factors, B.factors)) against A.qubitoperator + B.qubitoperator"""
+    import numpy as np
+    from tangelo.toolboxes.operators.multiformoperator import MultiformOperator as MF
+    ia, ib, fa, fb = A.integer.copy(), B.integer.copy(), A.factors.copy(), B.factors.copy()
+    try:
+        u, f = MF.collapse(np.vstack((A.integer, B.integer)), np.concatenate((A.factors, B.factors)))
+    except Exception as e:
+        return "collapse raised %r" % (e,)
+    got = {tuple((q, "IZXY"[int(c)]) for q, c in enumerate(row) if c): x for row, x in zip(u, f)}
+    if len(got) != len(f):
+        return "collapse returned a duplicate word"
+    sym = A.qubitoperator + B.qubitoperator
+    if canon_qterms(got) != canon_qterms(sym.terms):
+        keys = set(got) | set(sym.terms)
+        bad = [k for k in keys if frac2(got.get(k, 0)) != frac2(sym.terms.get(k, 0))]
+        return "%d of %d words have a different factor than in qubitoperator + qubitoperator, e.g. %s: %s instead of %s" % (
+            len(bad), len(keys), show_word(bad[0]), got.get(bad[0], 0), sym.terms.get(bad[0], 0))
+    if not (np_equal(A.integer, ia) and np_equal(B.integer, ib) and np.array_equal(A.factors, fa) and np.array_equal(B.factors, fb)):
+        return "operands changed"
+    return None
+
+
 # ------------------------------------------------------------------------------------------ probes
 def probes(ck):
     """Replay the witnesses of the *_refuted theorems on the real code (DESIGN §5.2)."""
@@ -1146,6 +1326,7 @@ def run(ck):
     fallback = [sec for sec, _ in terrs]
     ck.write_gen("MultiformTables", multiform_tables.emit(t, fallback))
     ck.notes["regenerated"] = {"prod_function": t["prod_name"], "do_commute_reduction": t["commute_reduction"],
+                               "collapse_index_dtype": t["collapse_index_dtype"], "collapse_index_max": t["collapse_index_max"],
                                "fallback_sections": fallback,
                                "note": ("sections %s could not be regenerated: the table obligations and the model used for the "
                                         "correspondence rest on LAST KNOWN GOOD values for them and say nothing about the current "
@@ -1213,6 +1394,7 @@ def run(ck):
     run_qubit_chains(ck, 250 if quick else 4000)
     run_multiform_stream(ck, 150 if quick else 2500, variants)
     run_commute_stream(ck, 250 if quick else 3000, variants)
+    run_large_arrays(ck, variants)
 
 
 def replay(data):
@@ -1235,6 +1417,18 @@ def replay(data):
         c = _C()
         probes(c)
         return 1 if data.get("signature") in c.vs else 0
+    if r.get("kind") == "collapse":
+        prob, got, _, _ = check_collapse_case({k: r[k] for k in ("seed", "n_rows", "n_qubits", "dtype", "n_words")})
+        print("collapse on %d rows of dtype %s: %s" % (r["n_rows"], r["dtype"], prob or "agrees with the sum over duplicate rows"))
+        return 1 if prob else 0
+    if r.get("kind") == "array-sum":
+        from tangelo.toolboxes.operators import QubitOperator as TQ
+        from tangelo.toolboxes.operators.multiformoperator import MultiformOperator as MF
+        ta = {tuple((int(q), p_) for q, p_ in w): complex(*v) for w, v in r["A_terms"]}
+        tb = {tuple((int(q), p_) for q, p_ in w): complex(*v) for w, v in r["B_terms"]}
+        prob = array_sum_problem(MF.from_qubitop(mk_qop(TQ, ta), r["n_qubits"]), MF.from_qubitop(mk_qop(TQ, tb), r["n_qubits"]))
+        print("array sum of %d + %d words: %s" % (len(ta), len(tb), prob or "agrees with the symbolic sum"))
+        return 1 if prob else 0
     if r.get("kind") == "multiform" and "A_terms" in r:
         import numpy as np
         from tangelo.toolboxes.operators import QubitOperator as TQ
